@@ -16,9 +16,57 @@ CHECKS = {
          'harness/cont_h.c replays generated histories on table, btree, priq, bitv, intset, list, buffer; every result is compared with a Python model (dict, sorted multiset, heap, int masks, lists, bytes). harness/dnf_h.c builds normal forms from formulas (exhaustive over 2 atoms depth 2 and 3 atoms depth 1, random up to 10 atoms) and the truth table of each normal form, implies and equal answers are checked. Both on plain and ASan builds.',
          'Operations outside the modules\' contracts (delete of an absent B-tree key, extract from an empty queue) are not issued; dnfImplies completeness beyond the term-wise test is a recorded finding.', '5 C20'),
 }
-CHECKS['C04'] = ('exploration', 'three-way differential monitor (interpreter / C runtime / constant folder) plus Python definitions',
-         'Every builtin that the Machine domain imports and whose operands are scalars (182 on the pinned tree, parsed from foamBValInfoTable) is applied to boundary tuples in generated sources; each source runs -Q0 interpreted, -Q0 through C and -Q2 -Qinline-all interpreted; results must agree and, for Bool/Char/SInt/HInt/Byte/BInt ops on their domain, equal the Python definition. The -Q2 .fm is inspected to count how many calls the folder really evaluated; ops never folded are listed, not passed off as folded.',
-         'Operand constants are themselves built through literal conversion builtins; outside an op\'s mathematical domain only agreement is demanded.', '5 C04')
+TV = 'translation_validation'; EX = 'exploration'; FE = 'fault_enumeration'
+def add(i, lvl, tech, text, note): CHECKS[i] = (lvl, tech, text, note, '5 ' + i)
+add('C01', TV, 'reference-evaluator oracle over generated programs on interpreter and C routes',
+    'Programs are drawn from a typed abstract grammar (vf/gen.py: both integer widths, booleans, strings, lists, records, unions, closures, generators, loops with break/iterate, early exit, exceptions with finally, overloading, macros, a category with a default, two domains, a parametrised domain); the expected text and exit class come from an independent reference evaluator; every program runs interpreted and as a C executable at -Q1 and -Q0 (thorough: -Q3 too). A fixed pool plus a VERIF_SEED slice.',
+    'The reference evaluator is the trusted model (Aldor User Guide semantics for the subset; libaldor conventions such as 0^0=0 observed once). Programs outside its discipline (62-bit overflow, zero divisors, empty first/rest) are discarded before compilation; shapes the pinned tree mis-handles are on a documented avoid list with committed witnesses.')
+add('C02', TV, 'differential monitor across optimisation configurations with a pass-fired observer',
+    'Each generated and corpus program is built under -Q1..-Q9, -O, every pass alone on top of -Q0, every pass removed from -Q9, random subsets and inline-limit extremes; stdout and exit class on the interp-ao route (C route for a third) must equal -Q0. The -Ffm text per configuration is compared with the -Q0 text to tally which switches rewrote the program (inconclusive if most never fire).',
+    '-Q0 on the same route is the reference. -Q9 non-termination / crashes and the experimental -Qkillp are recorded findings.')
+add('C03', TV, 'three-route differential monitor (interp from source, interp from .ao, C executable)',
+    'Generated programs (including ones ending by an uncaught exception) and the deterministic runnable corpus run on three routes at -Q0/-Q1/-Q3 (thorough: six levels); stdout and exit class must agree pairwise; a fault on all routes counts as agreement, a hang or a route that cannot be built while another runs does not.',
+    'Agreement is not correctness (C01 covers that for the generated family). Interpreter call-trace lines with raw addresses are removed.')
+add('C04', EX, 'three-way differential monitor (interpreter / C runtime / constant folder) plus Python definitions',
+    'Every builtin that the Machine domain imports and whose operands are scalars (182 on the pinned tree, parsed from foamBValInfoTable) is applied to boundary tuples in generated sources; each source runs -Q0 interpreted, -Q0 through C and -Q2 -Qinline-all interpreted; results must agree and, for Bool/Char/SInt/HInt/Byte/BInt ops on their domain, equal the Python definition. The -Q2 .fm is inspected to count how many calls the folder really evaluated.',
+    'Operand constants are themselves built through literal conversion builtins; outside an op\'s mathematical domain only agreement is demanded.')
+add('C05', TV, 'round-trip differential monitor over saved forms, split compilation and archives',
+    'C/FOAM/Lisp generated from source, from the .ao and from the .fm are compared structurally (recorded file name masked, wide machine integers folded back by value, white space ignored); a re-saved .fm must be byte-identical; interpreting .ao and .fm must behave like the source; a client importing a unit from .ao or from an archive member, and a program split into library unit + client (interpreted and through C), must behave like the one-unit program per the reference evaluator. Includes an extreme-constant pack.',
+    'C generated from FOAM text lacks pointer casts (recorded finding recognised by predicate); -Q9 failures fall back to -Q3 (C02 finding).')
+add('C06', EX, 'acceptance oracle for generated valid programs, rejection oracle for single-fault AST mutants',
+    'Valid generated programs must compile (-Fao -Fc -Ffm) with exit 0, no error line and all outputs. Fourteen kinds of type/scope fault (undefined identifier/operation, wrong argument type/count, assignment to a constant, wrong return type, duplicate definition, missing category export, operation not in the parameter category, wrong record field, case on a non-union, ...) are planted one at a time at statement positions of the abstract program; each mutant must be rejected with exit != 0, an (Error) line positioned inside the file and no .ao/.c/.fm left.',
+    'Mutants are ill-typed by construction of the catalogue, each entry calibrated on the pinned tree.')
+add('C07', EX, 'sanitizer monitor (ASan+bounds build, plus plain build with backtrace hook) over a fixed mutation sequence and a fresh clean-class slice',
+    'Random bytes, token-level mutants of 300 corpus/template sources, and stress shapes are compiled one per process by the ASan build (every 4th also by the plain build with the real collector). Oracle: terminates, no signal/fault/bug/assert/sanitizer report, exit status non-zero iff an error line was printed, inputs unbalanced by construction get a diagnostic. The main sequence is a fixed function of a committed seed (quick is a prefix of thorough) so that the fault sites it reaches on the pinned tree are a finite recorded list.',
+    'Known findings are keyed (build, report kind, innermost repository function), stack exhaustion by input. The ASan build uses the malloc store (no collector).')
+add('C08', EX, 'byte-equality monitor over irrelevant dimensions with hook-forced collections in the compiler',
+    'Each program is compiled to .ao .fm .c .lsp twice, differing in one dimension: repetition, ASLR off, -Wgc / -Wno-gc, scrambled environment, other cwd + absolute path, collections forced by the allocator hook at every k-th allocation in dense windows or sparse whole-run schedules with freed storage poisoned (the hook log proves the count), and three files in one invocation versus three invocations. All files and the diagnostics must be identical.',
+    'Later files of a batch differ (recorded finding); the first file and behaviour are strict.')
+add('C09', EX, 'schedule-forcing monitor (allocator hook) on compiled executables and the interpreter',
+    'The same executable and the same interpreted .ao run with no forcing, with the demand collector made eager (GC_GEFN/GC_GGFN), and with collections forced at every k-th allocation, offset j (whole run for executables incl. k=1, windows for the interpreter), freed storage poisoned; output and exit class must equal the unforced run and no run may end in a storage fault.',
+    'Conservative collection: only results are compared. One corpus program using the experimental packed representation is a recorded finding.')
+add('C12', TV, 'differential monitor Java route versus reference evaluator',
+    'Generated programs without try/catch and with 30-bit machine integers are translated with -Fjava -Jmain at -Q1/-Q3 (thorough: -Q9), compiled by javac against the shipped jars (40 classes per invocation) and run; stdout and exit class must equal the reference evaluator. "Java not implemented" marks an unsupported program, except for committed canaries that must stay supported.',
+    'Java machine integers are 32-bit and Catch is unimplemented in the generator, hence the restricted family.')
+add('C13', EX, 'session-versus-batch differential monitor with erroneous forms interleaved',
+    'The top-level forms of generated programs are fed to aldor -Gloop; marker-prefixed lines must equal the batch interpretation and the reference evaluator. Erroneous forms (seven kinds) are inserted at statement boundaries, singly and in runs; the marker sequence must be that of the program without them and each must be reported.',
+    'Only programs ending normally and without exception statements (recorded finding: try/catch steps are refused by the loop).')
+add('C14', EX, 'metamorphic monitor: parse tree (-Fap) invariance under layout-only rewriting',
+    'Every eligible corpus/template source (611) is rewritten by token-preserving layout edits: white-space runs, blank and comment lines, trailing comments, line splits/joins and escaped line breaks (braced), uniform re-indentation and tab expansion (piled); hand-paired braced/piled renderings of the same program are compared too. The .ap files must be byte-identical.',
+    'The rewriter never inserts white space between adjacent tokens and leaves ++ documentation and # lines alone.')
+add('C15', EX, 'metamorphic monitor on diagnostics (line shift, include, #line, column padding)',
+    'Faulty programs (templates with planted faults, corpus sources yielding diagnostics) are transformed: k code-free lines (blank, comment, skipped #if block; k up to 70000) inserted before a random line, tail moved into an included file, #line N and #line N "file", faulty line padded; every diagnostic must move exactly as predicted with the same column, severity, text and count.',
+    'Sources with conditional regions or local includes are excluded; #line numbers keep the numbering increasing. Column >= 16384 overflow is a recorded finding.')
+add('C16', TV, 'gcc as oracle over C-generation options, plus name-map injectivity',
+    'Programs (generated, corpus, an identifier pack with 60 long shared-prefix and operator-character names) are translated under {-Cold,-Cstandard} x smax {0,1,5,50} x {lines,no-lines}, compiled with gcc -std=gnu89/gnu99 -Werror=implicit-function-declaration, linked with the shipped runtime and run; behaviour must equal the default build. Identifier lengths {0,31,40,64} must compile; under every option set the number of distinct import/export names in the C equals the number of FOAM globals.',
+    'Non-default identifier lengths are compiled but not linked against the shipped runtime (generated with the default length).')
+add('C17', FE, 'enumerated file damage on plain and ASan builds',
+    'Tiny units are compiled to .ao/.fm/.al by the snapshot compiler; every truncation length and substitutions at every offset (quick: a VERIF_SEED-chosen 1/24 of the enumeration; header bytes denser) are used in real compilations (C from saved form, client import + interpret, interpret saved program, archive member) on both builds. Allowed: same outputs with exit 0, or exit != 0 with a diagnostic. Header, section table and archive headers are strict; silent acceptance of any truncation is always a violation.',
+    'The format has no checksum: payload substitutions that are accepted, fault or turn the program into a non-terminating one are recorded findings per (file kind, use).')
+add('C18', FE, 'syscall fault injection (strace) with proof of firing, /dev/full, RLIMIT_FSIZE',
+    'For every output kind (-Fai -Fap -Fasy -Fao -Ffm -Flsp -Fc -Fjava -Fmain) a fault-free traced run counts the writes and closes of the output; then every K-th write (ENOSPC) and K-th close (EIO) is failed in turn, the target is put on /dev/full, made a directory or placed in a missing directory, and RLIMIT_FSIZE sweeps the size. Exit 0 requires every requested output byte-equal to the reference; a fired failure requires exit != 0 and a diagnostic.',
+    'A write/close injection counts only if strace logged (INJECTED) on a descriptor that was written to.')
+NA = {}
 NA = {}
 def main():
     props = [json.loads(l) for l in open(os.path.join(V, 'properties.jsonl'))]
